@@ -48,6 +48,7 @@ func newC08World(c *ev.Ctx, root string) bfs.World {
 	return &c08World{w: newShimWorld(noUp, init, nil), t: newShimWorld(noUp, init, nil), thorough: c.Thorough(), c: c}
 }
 
+func (x *c08World) Init() []bfs.Finding { return nil }
 func (x *c08World) Close() { x.w.Close(); x.t.Close() }
 
 func (x *c08World) Key() string {
